@@ -268,7 +268,6 @@ pub fn all(full: bool) -> Vec<Config> {
     // literal association topologies no shipped record has (see pcsaft_literal)
     v.push(cfg("pcsaft_csite_propane", M::PcSaft(PcSaft::new(Arc::new(pcsaft_literal("csite_propane")))), 2, 450.0, true));
     v.push(cfg("pcsaft_donor_acceptor", M::PcSaft(PcSaft::new(Arc::new(pcsaft_literal("donor_acceptor")))), 2, 500.0, true));
-    v.push(cfg("pcsaft_dq_one_molecule", M::PcSaft(PcSaft::new(Arc::new(pcsaft_literal("dipole_quadrupole_one_molecule")))), 1, 450.0, false));
     // gc-PC-SAFT
     v.push(cfg("gcpcsaft_propane", M::GcPcSaft(gc_pcsaft(&["propane"])), 1, 370.0, true));
     v.push(cfg(
